@@ -882,6 +882,9 @@ pub fn on_commit(o: &mut Observer, node: usize, b: &Block, d: &Digest, _seq: u64
     if !b.payload.is_empty() {
         o.probe("C08.commit-nonempty-payload");
     }
+    if b.payload.len() > 32 {
+        o.probe("commit.payload-over-32-digests");
+    }
     crate::monitors_batch::on_commit(o, node, b);
 }
 
